@@ -128,7 +128,7 @@ theorem grows_handleFind (s : Stack) (e : SDEntry) (a : Addr) (mc : Bool) : Grow
   · exact Grows.refl _
   · split
     · have h := grows_foldl (fun (st : Stack) (i : Nat) =>
-        (st.callLater (s.draw s.tm.reqRespDelayMin s.tm.reqRespDelayMax).2 (.sendOfferTo i a)).1) (fun s i => Grows.of_eq rfl)
+        ((st.logAnswer i a (s.draw s.tm.reqRespDelayMin s.tm.reqRespDelayMax).2).callLater (s.draw s.tm.reqRespDelayMin s.tm.reqRespDelayMax).2 (.sendOfferTo i a)).1) (fun s i => Grows.of_eq rfl)
         (s.answering e) (s.draw s.tm.reqRespDelayMin s.tm.reqRespDelayMax).1
       exact h.pre (draw_outs _ _ _)
     · exact grows_foldl (fun (st : Stack) (i : Nat) => st.callSoon (.sendOfferTo i a)) (fun s i => Grows.of_eq rfl) _ _
